@@ -24,6 +24,8 @@ func main() {
 	n := fs.Int("n", 10, "number of histories")
 	depth := fs.Int("depth", 40, "blocks per history")
 	mode := fs.String("mode", "", "driver mode")
+	period := fs.Int64("period", 3, "relayer electing period (ticks)")
+	acceptTimeout := fs.Int64("accept-timeout", 2, "relayer accept-proposer timeout (ticks)")
 	fs.Parse(args)
 	_ = n
 	_ = depth
@@ -34,6 +36,8 @@ func main() {
 	switch cmd {
 	case "merkle":
 		count, err = drive.MerkleReplay(*cases, *out, *seed, *inst)
+	case "relayer":
+		count, err = drive.RelayerRandom(*out, *seed, *n, *depth, *period, *acceptTimeout)
 	case "voted":
 		count, err = drive.VotedReplay(*cases, *out, *seed, *inst)
 	default:
